@@ -10,7 +10,27 @@ No interpretation happens here except:
   * `x.append(e)` as a statement, `x[i] = e`, `x[:k] = e` become the mutation statements of PyLite,
     which rebind x.  That is faithful only if no alias of the object is live, so they are admitted
     only when x provably (syntactically, see Fresh) holds a fresh list / array that has not escaped.
-  * the message expression of a `raise` is dropped (PyLite has one exception).
+  * the message expression of a `raise` is dropped (PyLite has one exception);
+  * `f(a, *rest)` (one starred argument, last, no keywords) becomes ECallStar; a comprehension with a
+    tuple target becomes ECompT; `zip(..)` is admitted only where it is consumed by iteration;
+  * `self.m(args)` as a statement becomes SMethod (the method may mutate self: PyLite rebinds self to what
+    the specification "mut:m" returns), admitted only when no alias of self can exist (see
+    Translator.self_method_call);
+  * for a method, the class's constant attributes (`name = <literal>` in the class body) are emitted as
+    `classattrs_<Class>_<method>` next to `bases_..`;
+  * a nested loop target `for a, (b, c) in it: body` becomes `for a, %1 in it: b, c = %1; body` with a
+    name %1 that is not a Python identifier (same bindings, same ValueError on a wrong length);
+  * `x[:, i] = e` becomes SSetCol (x fresh, as for the other mutations);
+  * numpy's dtype classes used as values (`np.float32`) become the opaque constant "<np.float32>";
+    what consumes them (`np.result_type`, `.astype`, `dtype=`) is given by specification in the templates.
+  * `a in e` / `a not in e` for a non-literal e become calls of the builtin "in";
+  * stateful local objects: a name bound to `Cls(...)`, Cls an imported capitalised name (a constructor: a new
+    object nobody else holds), that has not escaped (Fresh, kind "object") may receive method calls that mutate
+    it.  PyLite has no store, so such a call, which must be a whole statement `x.m(args)` / `t = x.m(args)`,
+    becomes `x, %r = meth!:m(x, args); t = %r`: the callee "meth!:m" (given by specification in the template)
+    returns the receiver's new state and the result.  `if c in x.m(args):` with a constant c is first hoisted
+    to `x, %t = meth!:m(x, args); if c in %t:` (the call is the first thing the test evaluates).  A method call
+    on such an object anywhere else in an expression is outside the fragment.
   * `h.m(args)` where m changes the state of its receiver (STATEFUL_METHODS: `readline` of a file ...) and h
     is a parameter becomes the statement `SCallSt "$k" h "meth:m" args` (the specification of m returns the
     result and the new state of h; h is rebound) placed BEFORE the statement it occurs in, and the call is
@@ -30,7 +50,7 @@ No interpretation happens here except:
   * `x.ravel()[:] = e` (filling a fresh array through its flat view) becomes `x = fill_flat(x, e)`, the
     specification of "fill_flat" being the array of x's shape holding the items of e in C order; admitted
     only for a provably fresh, un-escaped array x (np.empty(...) is C-contiguous, so ravel() is a view).
-  * `[e for a, b in it]` becomes ECompT (unpacking each element); `a[:, k]` the builtin "index[:,]"."""
+  * `a[:, k]` becomes the builtin "index[:,]"."""
 import ast
 import os
 from fractions import Fraction
@@ -140,6 +160,7 @@ EFFECT_CALLS = {"warnings.warn"}
 CLASS_NAMES = ("UserWarning", "FutureWarning", "DeprecationWarning", "RuntimeWarning")
 
 TYPE_NAMES = ("bool", "int", "float")
+DTYPE_CONSTS = ("np.float32", "np.float64", "np.int32", "np.int64")    # module attributes admitted as opaque constants
 FUNC_NAMES = ("sum", "len", "abs", "min", "max")
 
 
@@ -151,6 +172,7 @@ class Translator:
         self.ntemp = 0
         self.catches = []               # the classes of the except clauses, in source order
         self.is_generator = False
+        self.iterated = set()           # ids of the expressions that are only iterated (for / comprehension / tuple(..))
 
     def dotted(self, node):
         """a.b.c rooted at an imported module -> 'a.b.c', else None"""
@@ -161,14 +183,57 @@ class Translator:
             return None if base is None else base + "." + node.attr
         return None
 
-    def call(self, e):
+    def fresh_object(self, node):
+        return isinstance(node, ast.Name) and node.id not in self.modules and self.cur_state.get(node.id) == "object"
+
+    def obj_call(self, s, state):
+        """s is `x.m(args)` or `t = x.m(args)` with x a fresh local object -> (target or None, the call)"""
+        if isinstance(s, ast.Expr):
+            t, e = None, s.value
+        elif isinstance(s, ast.Assign) and len(s.targets) == 1:
+            t, e = s.targets[0], s.value
+        else:
+            return None
+        if (isinstance(e, ast.Call) and isinstance(e.func, ast.Attribute) and isinstance(e.func.value, ast.Name)
+                and e.func.value.id not in self.modules and state.get(e.func.value.id) == "object"):
+            if t is not None and not isinstance(t, (ast.Name, ast.Tuple, ast.List)):
+                return None
+            return t, e
+        return None
+
+    def hoisted_test(self, test, state):
+        """`c in x.m(args)` / `c not in x.m(args)`, c a constant, x a fresh local object -> (negated, c, call)"""
+        if (isinstance(test, ast.Compare) and len(test.ops) == 1 and isinstance(test.ops[0], (ast.In, ast.NotIn))
+                and isinstance(test.left, ast.Constant)):
+            e = test.comparators[0]
+            if (isinstance(e, ast.Call) and isinstance(e.func, ast.Attribute) and isinstance(e.func.value, ast.Name)
+                    and e.func.value.id not in self.modules and state.get(e.func.value.id) == "object"):
+                return isinstance(test.ops[0], ast.NotIn), test.left, e
+        return None
+
+    def call(self, e, mut=False):
         f = e.func
         pos = list(e.args)
         if is_stateful_call(e):
             raise Unsupported("state-changing call %s not in the first-evaluated position of its statement"
                               % ast.dump(e.func)[:60])
-        if any(isinstance(a, ast.Starred) for a in pos) or any(k.arg is None for k in e.keywords):
-            raise Unsupported("* / ** in call")
+        if any(k.arg is None for k in e.keywords):
+            raise Unsupported("** in call")
+        if any(isinstance(a, ast.Starred) for a in pos):
+            # f(a, b, *rest): one starred argument, the last one, and no keywords (PyLite's ECallStar)
+            if (e.keywords or not isinstance(pos[-1], ast.Starred)
+                    or any(isinstance(a, ast.Starred) for a in pos[:-1])):
+                raise Unsupported("* in call other than as the single last argument")
+            star = self.expr(pos[-1].value)
+            args = [self.expr(a) for a in pos[:-1]]
+            if isinstance(f, ast.Name) and f.id not in ("isinstance", "all", "any", "tuple", "list"):
+                return "(ECallStar %s %s %s)" % (cstr(f.id), lst(args), star)
+            if isinstance(f, ast.Attribute) and not (isinstance(f.value, ast.Call)):
+                name = self.dotted(f)
+                if name is not None:
+                    return "(ECallStar %s %s %s)" % (cstr(name), lst(args), star)
+                return "(ECallStar %s %s %s)" % (cstr("meth:" + f.attr), lst([self.expr(f.value)] + args), star)
+            raise Unsupported("callee of a call with * " + ast.dump(f)[:100])
         if (isinstance(f, ast.Name) and f.id in ("all", "any", "tuple", "list") and len(pos) == 1
                 and not e.keywords and isinstance(pos[0], ast.GeneratorExp)):
             g = pos[0]
@@ -176,6 +241,8 @@ class Translator:
                 return self.comp("CAll" if f.id == "all" else "CAny", g.generators, g.elt)
             # tuple(...) / list(...) consume the whole generator: a list comprehension
             return "(ECall %s %s)" % (cstr(f.id), lst([self.comp("CList", g.generators, g.elt)]))
+        if isinstance(f, ast.Name) and f.id in ("tuple", "list") and len(pos) == 1 and not e.keywords:
+            self.iterated.add(id(pos[0]))
         # a builtin function passed by keyword (sorted(x, key=sum)) is part of the callee's name
         fkw = [k for k in e.keywords if isinstance(k.value, ast.Name) and k.value.id in FUNC_NAMES
                and k.value.id not in self.locals]
@@ -185,6 +252,10 @@ class Translator:
             args = []
         else:
             args = [self.expr(a) for a in pos] + [self.expr(k.value) for k in vkw]
+        if isinstance(f, ast.Name) and f.id == "zip" and f.id not in self.locals and id(e) not in self.iterated:
+            # zip(..) is an iterator; PyLite renders it as a list, which is the same only when it is consumed
+            # by iteration: as the iterable of a for / comprehension or the argument of tuple(..) / list(..)
+            raise Unsupported("zip(..) used other than as the iterable of a for / comprehension / tuple() / list()")
         if isinstance(f, ast.Name):
             if f.id == "isinstance":
                 # isinstance(x, str|tuple|list): the class is part of the callee's name
@@ -201,6 +272,11 @@ class Translator:
             name = self.dotted(f)
             if name is not None:
                 return "(ECall %s %s)" % (cstr(name + suffix), lst(args))
+            if mut:
+                return "(ECall %s %s)" % (cstr("meth!:" + f.attr + suffix), lst([self.expr(f.value)] + args))
+            if self.fresh_object(f.value):
+                raise Unsupported("method call on the local object %s inside an expression (it may change the object)"
+                                  % f.value.id)
             return "(ECall %s %s)" % (cstr("meth:" + f.attr + suffix), lst([self.expr(f.value)] + args))
         raise Unsupported("callee " + ast.dump(f)[:100])
 
@@ -209,12 +285,15 @@ class Translator:
         all / any, where any(e for i in A for j in B) is any(any(e for j in B) for i in A) (same order of
         evaluation, same laziness)"""
         g = generators[0]
-        if (not g.ifs and not g.is_async and isinstance(g.target, ast.Tuple) and len(generators) == 1
-                and all(isinstance(x, ast.Name) for x in g.target.elts)):
-            return "(ECompT %s %s %s %s)" % (kind, lst([cstr(x.id) for x in g.target.elts]), self.expr(g.iter),
-                                             self.expr(elt))
-        if g.ifs or g.is_async or not isinstance(g.target, ast.Name):
+        self.iterated.add(id(g.iter))
+        if g.ifs or g.is_async:
             raise Unsupported("comprehension form")
+        if not isinstance(g.target, ast.Name):
+            # for a, b in it: a tuple target (PyLite's ECompT), single for clause only
+            if len(generators) > 1:
+                raise Unsupported("comprehension form")
+            return "(ECompT %s %s %s %s)" % (kind, lst([cstr(n) for n in target_names(g.target)]), self.expr(g.iter),
+                                             self.expr(elt))
         if len(generators) > 1:
             # [e for i in A for j in B] is the concatenation of [[e for j in B] for i in A]
             body = self.comp(kind, generators[1:], elt)
@@ -258,9 +337,12 @@ class Translator:
                     if not (isinstance(right, ast.Constant) and right.value is None):
                         raise Unsupported("is <non-None>")
                     parts.append("(EIsNone %s %s)" % (expr(left), "true" if isinstance(op, ast.IsNot) else "false"))
+                elif isinstance(op, (ast.In, ast.NotIn)) and not isinstance(right, (ast.List, ast.Tuple)):
+                    if len(e.ops) > 1:
+                        raise Unsupported("chained in")
+                    t_ = "(ECall %s %s)" % (cstr("in"), lst([expr(left), expr(right)]))
+                    parts.append("(ENot %s)" % t_ if isinstance(op, ast.NotIn) else t_)
                 elif isinstance(op, (ast.In, ast.NotIn)):
-                    if not isinstance(right, (ast.List, ast.Tuple)):
-                        raise Unsupported("in <non-literal>")
                     parts.append("(EIn %s %s %s)" % (expr(left), lst([expr(x) for x in right.elts]),
                                                      "true" if isinstance(op, ast.NotIn) else "false"))
                 elif type(op) in CMP:
@@ -277,6 +359,8 @@ class Translator:
         if isinstance(e, ast.Attribute):
             if self.dotted(e) in MODULE_CONSTS:
                 return "(EConst (VS %s))" % cstr(MODULE_CONSTS[self.dotted(e)])
+            if self.dotted(e) in DTYPE_CONSTS:
+                return "(EConst (VS %s))" % cstr("<%s>" % self.dotted(e))
             if self.dotted(e) is not None:
                 raise Unsupported("module attribute " + self.dotted(e))
             return "(ECall %s %s)" % (cstr("attr:" + e.attr), lst([expr(e.value)]))
@@ -289,6 +373,8 @@ class Translator:
             if isinstance(sl, ast.Slice):
                 if sl.step is not None:
                     raise Unsupported("slice step")
+                if sl.lower is None and sl.upper is not None and not is_int_const(sl.upper):
+                    return "(ESliceToE %s %s)" % (expr(e.value), expr(sl.upper))
                 if sl.lower is None and sl.upper is not None:
                     return "(ESliceTo %s %s)" % (expr(e.value), cZ(int_const(sl.upper)))
                 if sl.lower is not None and sl.upper is None and int_const(sl.lower) >= 0:
@@ -427,9 +513,35 @@ class Translator:
             return s.value.func.value.id, s.value.args[0]
         return None
 
+    def self_method_call(self, s):
+        """self.m(args) as a statement (the method may mutate self: PyLite's SMethod, which rebinds self).
+        Admitted only when `self` is the function's first parameter and no alias of it can exist: every
+        occurrence of the name `self` in the function is the object of an attribute access / method call
+        (`self.a`, `self.m(..)`) or the value of a `return self`."""
+        if not (isinstance(s, ast.Expr) and isinstance(s.value, ast.Call) and isinstance(s.value.func, ast.Attribute)
+                and isinstance(s.value.func.value, ast.Name) and s.value.func.value.id == "self"):
+            return None
+        c = s.value
+        fn = self.function
+        if not (fn.args.args and fn.args.args[0].arg == "self"):
+            raise Unsupported("self.m(..) statement in a function whose first parameter is not self")
+        if c.keywords or any(isinstance(a, ast.Starred) for a in c.args):
+            raise Unsupported("self.m(..) statement with keyword / starred arguments")
+        ok = set()
+        for n in ast.walk(fn):
+            if isinstance(n, ast.Attribute) and isinstance(n.value, ast.Name) and n.value.id == "self":
+                ok.add(id(n.value))
+            elif isinstance(n, ast.Return) and isinstance(n.value, ast.Name) and n.value.id == "self":
+                ok.add(id(n.value))
+        for n in ast.walk(fn):
+            if isinstance(n, ast.Name) and n.id == "self" and id(n) not in ok:
+                raise Unsupported("self.m(..) statement in a function where self may be aliased")
+        return c.func.attr, list(c.args)
+
     def stmts(self, body):
         out = []
         for pos_, s in enumerate(body):
+            self.cur_state = getattr(s, "_fresh", {})
             # state-changing method calls are hoisted in front of the statement that starts with them
             if isinstance(s, (ast.Assign, ast.Expr, ast.Return, ast.AugAssign)):
                 out.extend(self.hoist(s, "value"))
@@ -437,6 +549,24 @@ class Translator:
                 out.extend(self.hoist(s, "test"))
             elif isinstance(s, ast.For):
                 out.extend(self.hoist(s, "iter"))
+            oc = self.obj_call(s, self.cur_state)
+            if oc is not None:
+                # x.m(args) on a fresh local object: x, %r = meth!:m(x, args); target = %r
+                t, e = oc
+                out.append("SAssign %s %s" % (lst([cstr(e.func.value.id), cstr("%r")]), self.call(e, mut=True)))
+                if t is not None:
+                    out.append("SAssign %s (EVar %s)" % (lst([cstr(n) for n in target_names(t)]), cstr("%r")))
+                continue
+            if isinstance(s, ast.If):
+                ht = self.hoisted_test(s.test, self.cur_state)
+                if ht is not None:
+                    neg, c, e = ht
+                    out.append("SAssign %s %s" % (lst([cstr(e.func.value.id), cstr("%t")]), self.call(e, mut=True)))
+                    test = "(ECall %s %s)" % (cstr("in"), lst([self.expr(c), "(EVar %s)" % cstr("%t")]))
+                    if neg:
+                        test = "(ENot %s)" % test
+                    out.append("SIf %s %s %s" % (test, self.stmts(s.body), self.stmts(s.orelse)))
+                    continue
             if (isinstance(s, ast.Assign) and len(s.targets) == 1 and isinstance(s.targets[0], ast.Name)
                     and isinstance(s.value, ast.GeneratorExp)):
                 # x = (generator): materialised as a list.  Equivalent only if the generator is consumed
@@ -474,7 +604,13 @@ class Translator:
                             raise Unsupported("slice assignment form")
                         out.append("SSetSlice %s %s %s" % (cstr(t.value.id), cZ(int_const(sl.upper)), self.expr(s.value)))
                     elif isinstance(t.slice, ast.Tuple):
-                        raise Unsupported("multi-dimensional assignment")
+                        # x[:, i] = e
+                        el = t.slice.elts
+                        if not (len(el) == 2 and isinstance(el[0], ast.Slice) and el[0].lower is None
+                                and el[0].upper is None and el[0].step is None
+                                and not isinstance(el[1], (ast.Slice, ast.Tuple, ast.Starred))):
+                            raise Unsupported("multi-dimensional assignment")
+                        out.append("SSetCol %s %s %s" % (cstr(t.value.id), self.expr(el[1]), self.expr(s.value)))
                     else:
                         out.append("SSetItem %s %s %s" % (cstr(t.value.id), self.expr(t.slice), self.expr(s.value)))
                 else:
@@ -496,8 +632,12 @@ class Translator:
             elif isinstance(s, ast.For):
                 if s.orelse:
                     raise Unsupported("for ... else")
-                out.append("SFor %s %s %s" % (lst([cstr(n) for n in target_names(s.target)]), self.expr(s.iter),
-                                              self.stmts(s.body)))
+                self.iterated.add(id(s.iter))
+                names, unpack = loop_targets(s.target)
+                body_ = self.stmts(s.body)
+                if unpack:
+                    body_ = "(" + " :: ".join(unpack) + " :: " + body_ + ")"
+                out.append("SFor %s %s %s" % (lst([cstr(n) for n in names]), self.expr(s.iter), body_))
             elif isinstance(s, ast.Raise):
                 out.append("SRaise")
             elif isinstance(s, ast.Return):
@@ -520,8 +660,11 @@ class Translator:
                 out.append(self.try_stmt(s))
             elif isinstance(s, ast.Expr):
                 ap = self.append_call(s)
+                sm = self.self_method_call(s)
                 if ap is not None:
                     out.append("SAppend %s %s" % (cstr(ap[0]), self.expr(ap[1])))
+                elif sm is not None:
+                    out.append("SMethod %s %s %s" % (cstr("self"), cstr(sm[0]), lst([self.expr(a) for a in sm[1]])))
                 else:
                     out.append("SExpr %s" % self.expr(s.value))
             else:
@@ -547,6 +690,33 @@ def target_names(t):
     raise Unsupported("assignment target " + ast.dump(t)[:100])
 
 
+def loop_targets(t):
+    """for-loop target -> (names bound by the loop, unpacking statements put in front of the body).
+    One level of nesting: `for a, (b, c) in it` binds a and a temporary %k, and the body starts with
+    `b, c = %k` (% cannot occur in a Python identifier, so the temporary is fresh)."""
+    if isinstance(t, ast.Name) or all(isinstance(x, ast.Name) for x in t.elts):
+        return target_names(t), []
+    names, unpack = [], []
+    if not isinstance(t, (ast.Tuple, ast.List)):
+        raise Unsupported("loop target " + ast.dump(t)[:100])
+    for k, x in enumerate(t.elts):
+        if isinstance(x, ast.Name):
+            names.append(x.id)
+        else:
+            tmp = "%%%d" % (k + 1)
+            names.append(tmp)
+            unpack.append("SAssign %s (EVar %s)" % (lst([cstr(n) for n in target_names(x)]), cstr(tmp)))
+    return names, unpack
+
+
+def all_target_names(t):
+    if isinstance(t, ast.Name):
+        return [t.id]
+    if isinstance(t, (ast.Tuple, ast.List)):
+        return [n for x in t.elts for n in all_target_names(x)]
+    raise Unsupported("loop target " + ast.dump(t)[:100])
+
+
 # ---------------------------------------------------------------------------------------------------
 # Freshness: PyLite models mutation by rebinding the mutated variable.  We admit a mutation of x only
 # where x certainly holds an object created in this function that no other name / container / callee
@@ -556,7 +726,8 @@ def target_names(t):
 # are joined by intersection, loop bodies are iterated to a fixed point, and a loop body may not mutate
 # a name that occurs in the loop's iterable.
 FRESH_LIST_CALLS = {"list"}
-FRESH_ARRAY_CALLS = {"np.array", "np.unique", "np.empty"}      # always return a new array
+FRESH_ARRAY_CALLS = {"np.array", "np.unique"}      # always return a new array
+FRESH_ARRAY_CALLS_KW = {"np.zeros", "np.empty"}     # fresh also when called with keywords (dtype=)
 
 
 class Fresh:
@@ -566,8 +737,13 @@ class Fresh:
     def kind(self, e):
         if isinstance(e, (ast.List, ast.ListComp)):
             return "list"
+        if (isinstance(e, ast.Call) and isinstance(e.func, ast.Name) and e.func.id in self.tr.modules
+                and e.func.id[:1].isupper() and not any(isinstance(a, ast.Starred) for a in e.args)):
+            return "object"      # Cls(...), Cls an imported class: a new object that nobody else holds
         if isinstance(e, ast.Constant) and e.value is None:
             return "none"        # not an object that can be mutated; joins with a fresh list / array
+        if isinstance(e, ast.Call) and self.tr.dotted(e.func) in FRESH_ARRAY_CALLS_KW:
+            return "array"
         if isinstance(e, ast.Call) and not e.keywords:
             if isinstance(e.func, ast.Name) and e.func.id in FRESH_LIST_CALLS:
                 return "list"
@@ -589,6 +765,11 @@ class Fresh:
             pass                 # x is None: no alias
         elif isinstance(e, ast.Subscript) and isinstance(e.value, ast.Name):
             self.escaping(e.slice, out)
+        elif isinstance(e, ast.BinOp):
+            # x.a as an operand of arithmetic: the result is a new object, no alias of x survives
+            for c in (e.left, e.right):
+                if not (isinstance(c, ast.Attribute) and isinstance(c.value, ast.Name)):
+                    self.escaping(c, out)
         elif (isinstance(e, ast.Call) and isinstance(e.func, ast.Name) and e.func.id == "len" and len(e.args) == 1
               and isinstance(e.args[0], ast.Name) and not e.keywords):
             pass
@@ -621,9 +802,42 @@ class Fresh:
         if state.get(x) not in kinds:
             raise Unsupported("%s of %s, which may be aliased (not a fresh %s)" % (what, x, "/".join(kinds)))
 
+    def call_args_escaping(self, e, out):
+        for a in e.args:
+            self.escaping(a, out)
+        for k in e.keywords:
+            self.escaping(k.value, out)
+
     def block(self, body, state, frozen):
         for s in body:
             esc = set()
+            s._fresh = dict(state)       # what the translator may rely on at this statement
+            oc = self.tr.obj_call(s, state)
+            if oc is not None:
+                # x.m(args), x a fresh local object: it stays fresh unless it is passed to its own method
+                t, e = oc
+                x = e.func.value.id
+                self.call_args_escaping(e, esc)
+                if x in esc or x in frozen:
+                    raise Unsupported("method call on %s, which may be aliased" % x)
+                self.drop(state, esc)
+                if t is not None:
+                    self.drop(state, target_names(t))
+                continue
+            if isinstance(s, ast.If) and self.tr.hoisted_test(s.test, state) is not None:
+                _, _, e = self.tr.hoisted_test(s.test, state)
+                x = e.func.value.id
+                self.call_args_escaping(e, esc)
+                if x in esc or x in frozen:
+                    raise Unsupported("method call on %s, which may be aliased" % x)
+                self.drop(state, esc)
+                a = dict(state)
+                b = dict(state)
+                self.block(s.body, a, frozen)
+                self.block(s.orelse, b, frozen)
+                state.clear()
+                state.update(self.join(a, b))
+                continue
             if isinstance(s, ast.Assign):
                 t = s.targets[0]
                 self.escaping(s.value, esc)
@@ -656,7 +870,11 @@ class Fresh:
                     self.drop(state, esc)
                     self.need(state, s.target.value.id, ("list", "array"), frozen, "item update")
                 else:
+                    # x op= e: a new object for numbers; in place for a list / array, which stays fresh if it was
+                    keep = state.get(s.target.id) if s.target.id not in esc else None
                     self.drop(state, esc | {s.target.id})
+                    if keep in ("list", "array") and s.target.id not in frozen:
+                        state[s.target.id] = keep
             elif isinstance(s, ast.If):
                 self.escaping(s.test, esc)
                 self.drop(state, esc)
@@ -668,11 +886,11 @@ class Fresh:
                 state.update(self.join(a, b))
             elif isinstance(s, ast.For):
                 self.escaping(s.iter, esc)
-                self.drop(state, esc | set(target_names(s.target)))
+                self.drop(state, esc | set(all_target_names(s.target)))
                 inner_frozen = frozen | {n.id for n in ast.walk(s.iter) if isinstance(n, ast.Name)}
                 while True:
                     a = dict(state)
-                    self.drop(a, target_names(s.target))
+                    self.drop(a, all_target_names(s.target))
                     self.block(s.body, a, inner_frozen)
                     joined = self.join(state, a)
                     if joined == state:
@@ -710,6 +928,42 @@ class Fresh:
                 raise Unsupported(type(s).__name__)
 
 
+def literal_val(node):
+    """a PyLite value for a literal expression, or None"""
+    if isinstance(node, ast.Constant):
+        v = node.value
+        if v is None:
+            return "VNone"
+        if isinstance(v, bool):
+            return "(VB %s)" % ("true" if v else "false")
+        if isinstance(v, int):
+            return "(VZ %s)" % cZ(v)
+        if isinstance(v, float):
+            f = Fraction(v)
+            return "(VQ (%d # %d))" % (f.numerator, f.denominator)
+        if isinstance(v, str):
+            return "(VS %s)" % cstr(v)
+        return None
+    if isinstance(node, (ast.Tuple, ast.List)):
+        items = [literal_val(x) for x in node.elts]
+        if any(i is None for i in items):
+            return None
+        return "(%s %s)" % ("VT" if isinstance(node, ast.Tuple) else "VL", lst(items))
+    return None
+
+
+def class_constants(cls):
+    """[(name, PyLite value)] for the class-level assignments `name = <literal>`, later ones first (as a lookup
+    table: the last assignment wins)"""
+    out = []
+    for n in cls.body:
+        if isinstance(n, ast.Assign) and len(n.targets) == 1 and isinstance(n.targets[0], ast.Name):
+            v = literal_val(n.value)
+            if v is not None:
+                out.insert(0, (n.targets[0].id, v))
+    return out
+
+
 def imported_names(tree):
     names = set()
     for n in tree.body:
@@ -744,6 +998,7 @@ def translate(path, names):
             params = [x.arg for x in a.args]
             tr.function = n
             tr.locals = set(params) | {x.id for x in ast.walk(n) if isinstance(x, ast.Name) and isinstance(x.ctx, ast.Store)}
+            tr.cur_state = {}
             tr.handles = set()
             tr.ntemp = 0
             tr.catches = []
@@ -751,6 +1006,7 @@ def translate(path, names):
             if any(isinstance(x, ast.YieldFrom) for x in ast.walk(n)):
                 raise Unsupported("yield from")
             nyield = sum(isinstance(x, ast.Yield) for x in ast.walk(n))
+            Fresh(tr).block([s for s in n.body], {}, frozenset())     # also records the state at each statement
             body = tr.stmts(n.body)
             if nyield != body.count("SYield "):
                 raise Unsupported("yield used as an expression")
@@ -773,7 +1029,6 @@ def translate(path, names):
                                           "bound once to the result of a call and used for nothing else" % h)
             if len(tr.handles) > 1:
                 raise Unsupported("several stateful parameters (they could be the same object)")
-            Fresh(tr).block([s for s in n.body], {}, frozenset())
             ident = qual.replace(".", "_")
             found[qual] = "Definition src_%s : func :=\n  {| f_params := %s;\n     f_body := %s |}.\n" % (
                 ident, lst([cstr(p) for p in params]), body)
@@ -787,6 +1042,19 @@ def translate(path, names):
             found[qual] += "Definition raises_%s : list string := %s.\n" % (ident, lst([cstr(c) for c in classes]))
             if tr.catches:
                 found[qual] += "Definition catches_%s : list string := %s.\n" % (ident, lst([cstr(c) for c in tr.catches]))
+            # default values of the trailing parameters (constants only; a function with any other
+            # default gets no defaults_ definition, so a proof that needs it fails closed)
+            try:
+                dnames = params[len(params) - len(a.defaults):] if a.defaults else []
+                dvals = []
+                for d in a.defaults:
+                    if not isinstance(d, ast.Constant):
+                        raise Unsupported("non-constant default")
+                    dvals.append(tr.expr(d))
+                found[qual] += "Definition defaults_%s : list (string * expr) := %s.\n" % (
+                    ident, lst(["(%s, %s)" % (cstr(n_), v_) for n_, v_ in zip(dnames, dvals)]))
+            except Unsupported:
+                pass
             if cls is not None:
                 if cls.keywords and any(k.arg != "metaclass" for k in cls.keywords):
                     raise Unsupported("class keywords of " + cls.name)
@@ -796,6 +1064,10 @@ def translate(path, names):
                         raise Unsupported("base class expression of " + cls.name)
                     bases.append(b.id)
                 found[qual] += "Definition bases_%s : list string := %s.\n" % (ident, lst([cstr(b) for b in bases]))
+                # the class's own constant attributes (`dims = ("northing", "easting")`): name = literal of
+                # strings / numbers / None / tuples / lists; anything else in the class body is not listed
+                found[qual] += "Definition classattrs_%s : list (string * val) := %s.\n" % (
+                    ident, lst(["(%s, %s)" % (cstr(k), v) for k, v in class_constants(cls)]))
     missing = [n for n in names if n not in found]
     if missing:
         raise Unsupported("functions not found: %s" % missing)
